@@ -230,6 +230,22 @@ def run_matrix(tier, seed, report):
             SL2n = SingleLayerOperator(mesh2)
         n_eval += 1
         report("matrix/cache/other-curve-same-shape", same(g, pairwise(SL2n, e2[:10], e2[3:15])), {})
+        # two meshes whose element coordinates agree to 7 significant digits (user-supplied time grids [0, 0.5, 1] and
+        # [0, 0.5000001, 1]) through one cache directory: the key must separate lists that differ in ANY digit
+        from src.mesh import MeshParametrized as _MP
+        from src.parametrization import UnitSquare as _US
+        cdir = os.path.join(tmp, "near")
+        os.makedirs(cdir)
+        oks = []
+        for tg in ([0, 0.5, 1], [0, 0.5000001, 1], [0, 0.5 + 2.0 ** -40, 1]):
+            with quiet():
+                mn = _MP(_US(), initial_time_mesh=tg)
+                en = list(mn.leaf_elements)[:12]
+                got = SingleLayerOperator(mn, cache_dir=cdir).bilform_matrix(en, en)
+                ref_n = pairwise(SingleLayerOperator(mn), en, en)
+            oks.append(same(got, ref_n))
+            n_eval += 1
+        report("matrix/cache/element-lists-that-agree-to-7-digits-do-not-share-entries", all(oks), dict(ok=oks))
         # two different user-defined polygons (same class, same break points, hence identical element lists) sharing the cache
         # directory: the second must not be served the first one's matrix
         from src.parametrization import PiecewisePolygon
@@ -319,6 +335,25 @@ def run_vector(tier, seed, report):
             d = Mc.linform_vector(other)
             refo = np.array([M0.linform(e)[0] for e in other])
         report("vector/cache/other-list-same-length", same(d, refo), {})
+        # element lists that agree to 7 digits through one cache directory
+        try:
+            from src.mesh import MeshParametrized as _MP
+            from src.parametrization import UnitSquare as _US
+            ndir = os.path.join(tmp, "near")
+            os.makedirs(ndir, exist_ok=True)
+            oks = []
+            for tg in ([0, 0.5, 1], [0, 0.5000001, 1]):
+                with quiet():
+                    mn = _MP(_US(), initial_time_mesh=tg)
+                    en = [e for e in mn.leaf_elements if e.time_interval[0] == 0][:4] + [e for e in mn.leaf_elements if e.time_interval[0] != 0][:4]
+                    Mn = InitialOperator(mn, u0, initial_mesh=UnitSquareBoundaryRefined, cache_dir=ndir)
+                    got = Mn.linform_vector(en)
+                    refn = np.array([InitialOperator(mn, u0, initial_mesh=UnitSquareBoundaryRefined).linform(e)[0] for e in en])
+                oks.append(same(got, refn))
+                n_eval += 1
+            report("vector/cache/element-lists-that-agree-to-7-digits-do-not-share-entries", all(oks), dict(ok=oks))
+        except BaseException as e:
+            report("vector/cache/element-lists-that-agree-to-7-digits-do-not-share-entries", False, dict(raised=repr(e)))
         # the caller modifies a returned vector in place; later requests (cache hit, new operator on the directory, serial) unchanged
         try:
             with quiet():
